@@ -285,6 +285,44 @@ def cross_object_history(rnd, first_id):
     return events, rid
 
 
+def residue_history(rnd, first_id):
+    """Parses that FAIL half-way through evaluating a length expression (division by zero, negative shift count, undecodable
+    operand), each followed by parses of good bytes with the same types: nothing of the failed call may be left behind."""
+    u8 = A.t_int("uint8")
+    shapes = [
+        # (length expression, the three leading fields it names)
+        A.e_bin("+", A.e_id("a"), A.e_bin("/", A.e_id("b"), A.e_id("c"))),
+        A.e_bin("+", A.e_lit(1), A.e_bin("<<", A.e_lit(1), A.e_bin("-", A.e_id("c"), A.e_lit(2)))),
+        A.e_bin("*", A.e_bin("+", A.e_id("a"), A.e_lit(1)), A.e_bin("%", A.e_id("b"), A.e_id("c"))),
+        A.e_bin("|", A.e_id("a"), A.e_bin(">>", A.e_id("b"), A.e_bin("-", A.e_id("c"), A.e_lit(1)))),
+    ]
+    e = rnd.choice(shapes)
+    elem = rnd.choice([u8, A.t_int("uint16"), A.t_char()])
+    t = A.t_struct("RS", [A.field("a", u8), A.field("b", u8), A.field("c", u8), A.field("d", A.t_arr(elem, A.L_expr(e))), A.field("t", u8)])
+    mode = {"endian": rnd.choice("<>"), "align": rnd.random() < 0.3, "ptr": 8}
+    cs = codec.load(A.render(t), mode, rnd.random() < 0.5)
+    T = cs.RS
+    events, rid = [], first_id
+    live, next_iid = {}, 1
+    for _ in range(8):
+        a, b = rnd.randrange(0, 3), rnd.randrange(0, 6)
+        c = rnd.choice([0, 0, 1, 2, 3]) if rnd.random() < 0.6 else rnd.randrange(1, 4)
+        data = bytes([a, b, c]) + bytes(rnd.randrange(1, 256) for _ in range(24))
+        base = {"cs": 1, "type": t, "mode": mode, "consts": {"_": 0}}
+        try:
+            o = T.read(io.BytesIO(data))
+            live[next_iid] = (o, t)
+            ev = dict(base, ev="Parse", iid=next_iid, input=list(data), obs={"status": "ok", "v": A.project(o, t)})
+            next_iid += 1
+        except Exception as ex:  # noqa: BLE001
+            ev = dict(base, ev="Parse", iid=0, input=list(data), obs={"status": codec.classify(ex), "v": codec.NONE_V, "exc": f"{type(ex).__name__}: {ex}"[:100]})
+        ev["id"] = rid
+        ev["snap"] = [[iid, A.project(o, tt)] for iid, (o, tt) in sorted(live.items())]
+        events.append(ev)
+        rid += 1
+    return events, rid
+
+
 class SessionCheck:
     def __init__(self, prop):
         self.prop = prop
@@ -307,6 +345,10 @@ class SessionCheck:
             events += evs
         for _ in range(1500 if thorough else 120):
             evs, rid = cross_object_history(rnd, rid)
+            events.append({"ev": "New", "endian": "<"})
+            events += evs
+        for _ in range(1200 if thorough else 100):
+            evs, rid = residue_history(rnd, rid)
             events.append({"ev": "New", "endian": "<"})
             events += evs
         judged = [e for e in events if "id" in e]
